@@ -176,7 +176,7 @@ func (s *Session) ref(t *Term) string {
 		if s.defined[x.ID] {
 			continue
 		}
-		if x.Op == OpApp && !s.declF[x.Name] {
+		if x.Op == OpApp && !s.declF[x.Name] && !strings.HasPrefix(x.Name, "str.") {
 			s.declF[x.Name] = true
 			sig := Funs[x.Name]
 			var as []string
